@@ -122,3 +122,18 @@ fn f4_surplus_arguments_rejected() {
     assert!(RecExpr::<T>::parse("(var $x $y)").is_err());
     assert!(RecExpr::<T>::parse("(app 1 2)").is_ok());
 }
+
+// F10: apply_slotmap_fresh invented one fresh slot per occurrence instead of per slot
+#[test]
+fn f10_extract_redundant_slot_occurring_twice() {
+    let mut eg = EGraph::<T>::default();
+    let a = eg.add_expr(re("(app (var $x) (var $x))"));
+    let b = eg.add_expr(re("(app (var $y) (var $y))"));
+    eg.union(&a, &b);
+    let a = eg.find_applied_id(&a);
+    assert!(a.slots().is_empty());
+    let ex = Extractor::<T, AstSize>::new(&eg, AstSize);
+    let t = ex.extract(&a, &eg);
+    let back = lookup_rec_expr(&t, &eg).expect("extracted term must be represented");
+    assert!(eg.eq(&back, &a));
+}
